@@ -2228,6 +2228,10 @@ func (f *fragment) importValue(columnIDs []uint64, values []int64, bitDepth uint
 		_ = f.openStorage(true)
 		return err
 	}
+	// The bits were written straight to storage, so rows handed out earlier
+	// by the row cache no longer match it.
+	f.rowCache = &simpleCache{make(map[uint64]*Row)}
+
 	// We don't actually care, except we want our stats to be accurate.
 	f.incrementOpN(totalChanges)
 
